@@ -36,7 +36,7 @@ prop("C11", unit_ops={"manyrec"},
      rule="generated documents x 1..6 paths (shared prefixes, repeats, perturbed) filtered for shape consistency x {get_many, get_many_unchecked}; the implementation's slot vector is judged by the extracted reference lookup (verdict op); on documents that repeat member names (outside C11's statement: their API-level verdict is C14's) and on all others, for path sets of member names the search model itself (Model/ManySeen.rec2 over the tree Model/ManyBuild.build makes of the paths: counter, early exits, list of walked nodes) is run on the reference parse and must return the very slot vector get_many / get_many_unchecked returned, or fail where they fail (op manyrec); (schema, document) pairs against the reference merge",
      assumptions=["hash-map iteration order of owned objects is irrelevant (results compared after sorting keys)"])
 prop("C12",
-     rule="generated documents (arrays/objects of width 0..6, nested, escaped keys, whitespace), 1/5 with trailing bytes, 1/3 mutated x {to_array_iter, to_object_iter} x {&[u8], &FastStr, &Bytes} + unchecked iterators and LazyValue::into_*_iter on the well-formed ones; each iterator polled 3 times past its end; transcript (spans, decoded keys) compared with the reference iterator",
+     rule="an escape of five kinds at every offset 0..70 / 92..98 / 124..130 (0..200 thorough) of an item against the 32- and 64-byte blocks of the string skippers, as element, member value and member name; generated documents (arrays/objects of width 0..6, nested, escaped keys, whitespace), 1/5 with trailing bytes, 1/3 mutated x {to_array_iter, to_object_iter} x {&[u8], &FastStr, &Bytes} + unchecked iterators and LazyValue::into_*_iter on the well-formed ones; each iterator polled 3 times past its end; transcript (spans, decoded keys) compared with the reference iterator",
      assumptions=["invalid UTF-8 anywhere in the input is reported by the first poll (as the implementation does)"])
 prop("C14",
      rule="generated documents (one in three may repeat member names) mutated once (9 mutation kinds) x up to 5 paths x 6 checked get carriers, every prefix of small documents, get_many on the malformed stream, the enumerated number grammar (integer parts of 1..25, 30..34, 62..66, 95..97 digits x 35 well-formed and damaged tails) as selected value, as a member in front of it and as iterator item, get_many on well-formed documents that repeat member names (every filled slot is exactly one well-formed value inside the input, no panic: op manyfrag; F37), checked iterators; each returned span compared with the reference get on arbitrary bytes (Spec.Ref.ref_get = decision procedure of WfPrefix)",
